@@ -784,6 +784,10 @@ func (env *SpecEnv) typeOf(e ast.Expr) types.Type {
 				return types.NewSlice(t)
 			}
 		}
+	case *ast.InterfaceType:
+		if x.Methods == nil || len(x.Methods.List) == 0 {
+			return types.NewInterfaceType(nil, nil)
+		}
 	case *ast.MapType:
 		k, v := env.typeOf(x.Key), env.typeOf(x.Value)
 		if k != nil && v != nil {
@@ -1126,6 +1130,37 @@ func (env *SpecEnv) callExpr(x *ast.CallExpr) SVal {
 			specFail("boxed needs an interface value")
 		}
 		return sInt(iv.C[1])
+	case "holdsAt":
+		// holdsAt(i, T, p): the interface value i holds a T (dynamic type exactly T)
+		// whose components are those of the T stored at the address held in p
+		iv := arg(0)
+		if len(iv.C) != 2 {
+			specFail("holdsAt needs an interface value")
+		}
+		t := env.typeOf(x.Args[1])
+		if t == nil {
+			specFail("holdsAt: unknown type")
+		}
+		pv := arg(2)
+		ls := leaves(t)
+		cj := []Term{eq(iv.C[0], itoa(int64(vc.eng.typeID(t))))}
+		for k, l := range ls {
+			fam := family(t, l.key())
+			vc.regFam(fam, l.Sort)
+			stored := vc.sel(vc.get(env.state(), fam), pv.C[0])
+			var comp Term
+			if len(ls) == 1 {
+				comp = iv.C[1]
+				if l.Sort == "Bool" {
+					comp = eq(iv.C[1], "1")
+				}
+			} else {
+				g := vc.declareFun(fmt.Sprintf("unbox$%s$%d", typeKey(t), k), []string{"Int"}, l.Sort)
+				comp = sx(g, iv.C[1])
+			}
+			cj = append(cj, eq(comp, stored))
+		}
+		return sBool(and(cj...))
 	case "inrange":
 		// inrange(x, lo, hi): lo <= x < hi
 		return sBool(and(sx("<=", arg(1).t(), arg(0).t()), sx("<", arg(0).t(), arg(2).t())))
